@@ -122,6 +122,9 @@ def monitor(case, obs):
     fake = case["source"] == "fake"
     if obs["panics"] or obs.get("would_crash"):
         bad.append("relay panicked (process crash under the default ReallyCrash): %s" % obs["panics"][:2])
+    if obs.get("leaked"):
+        bad.append("after every watch of the process had been stopped or had ended, %d goroutine(s) were left in hijack.go: %s" % (
+            obs["leaked"]["goroutines"], " ".join(obs["leaked"]["where"].split())[:300]))
     sends = [st for st in steps if st["op"] == "send"]
     final = {f["step"]: f["status"] for f in obs["send_final"]}
     # events in the order the consumer got them, the parked one (last probe) included
@@ -259,7 +262,16 @@ def run_part(part, timeout=1200):
     double close in Stop, takes the whole process down, as it would take down the user's process) the cases are run
     one by one to find the schedule that kills it"""
     try:
-        return core.run_harness("watch", part, timeout, binary=BIN)
+        outs = core.run_harness("watch", list(part) + [{"mode": "leakcheck", "source": "fake", "steps": []}], timeout, binary=BIN)
+        leak = outs.pop()
+        if leak.get("hijack_goroutines"):
+            # every watch of this process has been stopped or has ended, yet goroutines are left in hijack.go: attribute them to the
+            # first schedule that stops or closes (all of them leak when Watch itself starts a goroutine that nothing ends)
+            for c, o in zip(part, outs):
+                if "harness_error" not in o and any(st["op"] in ("stop", "close") for st in c["steps"]):
+                    o["leaked"] = {"goroutines": leak["hijack_goroutines"], "where": leak.get("where", "")[:500]}
+                    break
+        return outs
     except core.BuildError as e:
         msg = "the process running the hijacked watch died: " + str(e)[-500:]
         if len(part) == 1:
